@@ -96,6 +96,10 @@ def corr_phase(prop, spec, tier, seed, res, budget_scale=1):
             if impl is not None and len(impl) > 4000:
                 stats["oversize_skipped"] = stats.get("oversize_skipped", 0) + 1
                 continue
+            if model is not None and any(l.startswith(("!CRASH", "!TIMEOUT", "!NOT-RUN")) for l in model):
+                # the MODEL driver ran out of its resource limits on this case (generator accident): no verdict either way
+                stats["model_resource_skipped"] = stats.get("model_resource_skipped", 0) + 1
+                continue
             stats["evaluations"] += 1
             for l in lines:
                 dist["op:" + l.split()[0]] += 1
